@@ -41,6 +41,11 @@ extern "C" {
  */
 typedef union
 {
+#if defined(ASCON_SUITE_VERIF)
+    /* Verification hook: a byte view declared first so that bounded
+     * model checkers encode the union byte-wise.  No effect on layout. */
+    uint8_t verif_bytes_first[32];
+#endif
     uint64_t S[4];      /**< 64-bit version of the masked shares */
     uint32_t W[8];      /**< 32-bit version of the masked shares */
     uint8_t B[32];      /**< 8-bit version of the masked shares */
